@@ -492,6 +492,24 @@ func (tt *TermTable) BVBin(op Op, a, b *Term) *Term {
 			return a
 		}
 	}
+	if op == OOr || op == OXor || op == OAdd {
+		if r := tt.mergePieces(a, b); r != nil {
+			return r
+		}
+	}
+	if op == OAnd {
+		// x & lowmask -> zext(extract)
+		for _, pr := range [][2]*Term{{a, b}, {b, a}} {
+			c, x := pr[0], pr[1]
+			if c.op == OConst {
+				m := c.ConstBig()
+				k := m.BitLen()
+				if k > 0 && k < w && new(big.Int).Add(m, big.NewInt(1)).BitLen() == k+1 && new(big.Int).And(new(big.Int).Add(m, big.NewInt(1)), m).Sign() == 0 {
+					return tt.ZExt(tt.Extract(k-1, 0, x), w)
+				}
+			}
+		}
+	}
 	// canonical order for commutative ops: const first
 	switch op {
 	case OAdd, OMul, OAnd, OOr, OXor:
@@ -500,6 +518,181 @@ func (tt *TermTable) BVBin(op Op, a, b *Term) *Term {
 		}
 	}
 	return tt.bin(op, a.sort, a, b)
+}
+
+// ---- byte-assembly normalisation
+
+type piece struct {
+	t      *Term // nil: zeros
+	hi, lo int   // bit range inside t (for zeros: width = hi-lo+1)
+}
+
+func (p piece) width() int { return p.hi - p.lo + 1 }
+
+// pieces describes t as a concatenation (most significant first) of extracts and zero runs.
+// Returns nil if t has no useful structure (a single opaque piece).
+func (tt *TermTable) pieces(t *Term, depth int) []piece {
+	w := t.sort.W
+	opaque := []piece{{t, w - 1, 0}}
+	if depth > 6 {
+		return opaque
+	}
+	switch t.op {
+	case OConst:
+		if t.ConstBig().Sign() == 0 {
+			return []piece{{nil, w - 1, 0}}
+		}
+		return opaque
+	case OExtract:
+		return []piece{{t.args[0], t.p1, t.p2}}
+	case OZExt:
+		return append([]piece{{nil, t.p1 - 1, 0}}, tt.pieces(t.args[0], depth+1)...)
+	case OConcat:
+		return append(append([]piece{}, tt.pieces(t.args[0], depth+1)...), tt.pieces(t.args[1], depth+1)...)
+	case OShl, OLShr:
+		c := t.args[1]
+		if c.op != OConst || !c.ConstBig().IsInt64() {
+			return opaque
+		}
+		k := int(c.ConstBig().Int64())
+		if k >= w {
+			return []piece{{nil, w - 1, 0}}
+		}
+		if k == 0 {
+			return tt.pieces(t.args[0], depth+1)
+		}
+		inner := tt.pieces(t.args[0], depth+1)
+		if t.op == OShl {
+			// drop the top k bits, append k zeros
+			return append(slicePieces(inner, w, w-k-1, 0), piece{nil, k - 1, 0})
+		}
+		return append([]piece{{nil, k - 1, 0}}, slicePieces(inner, w, w-1, k)...)
+	}
+	return opaque
+}
+
+// slicePieces returns the bits [hi:lo] of the value described by ps (total width w).
+func slicePieces(ps []piece, w, hi, lo int) []piece {
+	var out []piece
+	top := w - 1
+	for _, p := range ps {
+		pw := p.width()
+		bot := top - pw + 1 // this piece covers value bits [top:bot]
+		h, l := top, bot
+		if hi < h {
+			h = hi
+		}
+		if lo > l {
+			l = lo
+		}
+		if h >= l {
+			if p.t == nil {
+				out = append(out, piece{nil, h - l, 0})
+			} else {
+				out = append(out, piece{p.t, p.lo + (h - bot), p.lo + (l - bot)})
+			}
+		}
+		top = bot - 1
+	}
+	return out
+}
+
+// mergePieces returns a|b (== a^b == a+b) when at every bit position at least one side is a
+// known zero, rebuilt as a concatenation; nil otherwise.
+func (tt *TermTable) mergePieces(a, b *Term) *Term {
+	if !hasZeroStructure(a) || !hasZeroStructure(b) {
+		return nil
+	}
+	pa, pb := tt.pieces(a, 0), tt.pieces(b, 0)
+	w := a.sort.W
+	// collect boundaries
+	var out []piece
+	ia, ib := 0, 0
+	ra, rb := pa[0], pb[0] // remaining parts of current pieces
+	pos := w
+	for pos > 0 {
+		n := ra.width()
+		if rb.width() < n {
+			n = rb.width()
+		}
+		// take top n bits of both
+		ta := piece{ra.t, ra.hi, ra.hi - n + 1}
+		tb := piece{rb.t, rb.hi, rb.hi - n + 1}
+		switch {
+		case ta.t == nil:
+			out = append(out, tb)
+		case tb.t == nil:
+			out = append(out, ta)
+		default:
+			return nil
+		}
+		pos -= n
+		ra.hi -= n
+		rb.hi -= n
+		if ra.width() == 0 {
+			ia++
+			if ia < len(pa) {
+				ra = pa[ia]
+			}
+		}
+		if rb.width() == 0 {
+			ib++
+			if ib < len(pb) {
+				rb = pb[ib]
+			}
+		}
+	}
+	return tt.buildPieces(out)
+}
+
+func hasZeroStructure(t *Term) bool {
+	switch t.op {
+	case OZExt:
+		return true
+	case OShl, OLShr:
+		return t.args[1].op == OConst
+	case OConcat:
+		return hasZeroStructure(t.args[0]) || hasZeroStructure(t.args[1]) || isZeroConst(t.args[0]) || isZeroConst(t.args[1])
+	}
+	return false
+}
+
+func isZeroConst(t *Term) bool { return t.op == OConst && t.ConstBig().Sign() == 0 }
+
+func (tt *TermTable) buildPieces(ps []piece) *Term {
+	// merge adjacent pieces
+	var m []piece
+	for _, p := range ps {
+		if len(m) > 0 {
+			l := &m[len(m)-1]
+			if l.t == nil && p.t == nil {
+				l.hi += p.width()
+				continue
+			}
+			if l.t != nil && l.t == p.t && l.lo == p.hi+1 {
+				l.lo = p.lo
+				continue
+			}
+		}
+		m = append(m, p)
+	}
+	var r *Term
+	for _, p := range m {
+		var t *Term
+		if p.t == nil {
+			t = tt.BV(p.width(), 0)
+		} else {
+			t = tt.Extract(p.hi, p.lo, p.t)
+		}
+		if r == nil {
+			r = t
+		} else if isZeroConst(r) {
+			r = tt.ZExt(t, r.sort.W+t.sort.W)
+		} else {
+			r = tt.Concat(r, t)
+		}
+	}
+	return r
 }
 
 func (tt *TermTable) BVNot(a *Term) *Term {
@@ -559,6 +752,35 @@ func (tt *TermTable) Extract(hi, lo int, a *Term) *Term {
 		}
 		if lo >= lw {
 			return tt.Extract(hi-lw, lo-lw, a.args[0])
+		}
+	case OLShr:
+		if c := a.args[1]; c.op == OConst && c.ConstBig().IsInt64() {
+			k := int(c.ConstBig().Int64())
+			if hi+k < a.sort.W {
+				return tt.Extract(hi+k, lo+k, a.args[0])
+			}
+			if lo+k >= a.sort.W {
+				return tt.BV(w, 0)
+			}
+		}
+	case OShl:
+		if c := a.args[1]; c.op == OConst && c.ConstBig().IsInt64() {
+			k := int(c.ConstBig().Int64())
+			if lo >= k {
+				return tt.Extract(hi-k, lo-k, a.args[0])
+			}
+			if hi < k {
+				return tt.BV(w, 0)
+			}
+		}
+	case OAnd, OOr, OXor:
+		// bitwise ops distribute over extract when it exposes a constant side
+		if a.args[0].op == OConst || a.args[1].op == OConst {
+			return tt.BVBin(a.op, tt.Extract(hi, lo, a.args[0]), tt.Extract(hi, lo, a.args[1]))
+		}
+	case OIte:
+		if a.args[1].op == OConst && a.args[2].op == OConst {
+			return tt.Ite(a.args[0], tt.Extract(hi, lo, a.args[1]), tt.Extract(hi, lo, a.args[2]))
 		}
 	}
 	return tt.mk(&Term{op: OExtract, sort: BVSort(w), args: []*Term{a}, p1: hi, p2: lo})
@@ -923,6 +1145,11 @@ func (tt *TermTable) BV2Nat(a *Term) *Term {
 	}
 	if a.op == OZExt {
 		return tt.BV2Nat(a.args[0])
+	}
+	if a.op == OConcat {
+		hi := tt.BV2Nat(a.args[0])
+		lo := tt.BV2Nat(a.args[1])
+		return tt.IBin(OIAdd, tt.IBin(OIMul, hi, tt.Int(new(big.Int).Lsh(big.NewInt(1), uint(a.args[1].sort.W)))), lo)
 	}
 	return tt.un(OBV2Nat, IntSort, a)
 }
